@@ -75,11 +75,14 @@ def gen_lifo(rng):
     lines = ['lifo %s %d %d' % (kind, bs, 6)]
     for _ in range(rng.randint(6, 30)):
         lines.append(rng.choice(['ab', 'ab', 'db', 'bad %d' % rng.randint(0, 5), 'badfree']))
+        if kind == 'fixed' and rng.random() < 0.25:
+            # an acquisition that fails upstream hands nothing out: a block returned afterwards is still a bad call
+            lines += ['db', 'fail', 'ab', 'badfree']
     return '\n'.join(lines) + '\n'
 
 
 def gen_unwind(rng):
-    lines = ['unwind %d' % rng.choice([128, 256, 1024])]
+    lines = ['unwind %d %s' % (rng.choice([128, 256, 1024]), rng.choice(['up', 'down']))]
     for _ in range(rng.randint(6, 40)):
         r = rng.random()
         if r < 0.4:
